@@ -28,7 +28,7 @@ Definition TailSpec : Prop := forall bin (sufs : list suffix) ,
   Forall (fun sn => suf_ok bin (fst sn)) sufs -> NoDup (map snd sufs) ->
   fold_right (fun sn acc => lenN (fst sn) + 1 + acc) 1 sufs < 2^60 ->
   exists T asg, tail_complete bin sufs = Ok (T, asg) /\
-    tv_bin_mode T = bin /\ 1 <= tv_size T /\
+    tv_bin_mode T = bin /\ 1 <= tv_size T /\ tv_size T < 2^60 /\
     (forall q, Forall (fun b => b < 256) q ->
        t_match T q 0 = Ok (match q with [] => true | _ => false end) /\
        t_prefix_match T q 0 = Ok (Some 0)) /\
